@@ -3,6 +3,7 @@
 import os, sys, json
 sys.path.insert(0, os.path.join(os.path.dirname(os.path.abspath(__file__)), "..", "lib"))
 import vf
+sys.path.insert(0, os.path.dirname(os.path.abspath(__file__)))
 
 
 def run(c):
@@ -68,6 +69,9 @@ def run(c):
                      "one second; output parsed by the independent descriptor reader, clock window taken by the harness, signature projected by the independent PKCS#7 reader and checked "
                      "over the right buffer and up to 9 wrong candidate buffers by the harness verifier, go.mozilla.org/pkcs7 and openssl smime -verify; validated by spec/SignVarTrace.tla") % (
                          " (seeded sample of 70)" if c.quick else "")
+    import flow_common
+    nflow = flow_common.run_flow(c, ("bind", "time"), 30 if c.quick else 300)
+    c.cov["evaluations"] += nflow
     c.sample(scen[0])
     can = [json.loads(json.dumps(e)) for e in events[:2]]
     can[1]["time"]["timezone"] = 540
